@@ -102,7 +102,7 @@ fn structured(r: &mut Rng, w: &World, to: usize) -> Vec<u8> {
                     let v = match (&cur, aware) {
                         (Some(id), true) => {
                             // mostly increasing from near the frontier, so that the stream decodes
-                            last_v = if last_v == 0 { near(r, w, to, id, 2) } else if r.chance(0.1) { near(r, w, to, id, 2) } else { last_v.saturating_add(1 + r.below(2)) };
+                            last_v = if last_v == 0 { near(r, w, to, id, 2) } else if r.chance(0.1) { near(r, w, to, id, 2) } else if r.chance(0.12) { last_v } else { last_v.saturating_add(1 + r.below(2)) };
                             last_v
                         }
                         _ => ver(r),
